@@ -58,6 +58,21 @@ const PROGRAMS: &[&str] = &[
     "walk(if type == \"number\" then . + 1 else . end), (.. | numbers)",
     "\"é😀\" | explode, (explode | implode), utf8bytelength, (tobytes | tostring)",
     "infinite, nan | isinfinite, isnan, (1e1000 | tojson)",
+    // pairs of filters that share a helper or a table, and results that show key order
+    "(tostring | @html), (tojson | @html | @htmld)",
+    "\"&lt;b&gt; &amp; &#39;x&#39; &quot;\" | @htmld, (@htmld | @html)",
+    "(tostring | @uri), (tostring | @uri | @urid), (tostring | @base64 | @base64d), (\"a%41\" | @urid)",
+    "@text, (tostring | @csv \"\\(.)\"), (tostring | @tsv \"\\(.)\"), (tostring | @sh), ([tostring] | @csv)",
+    "del(.a)?, del(.b)?, del(.[0])?, (del(.c)? | tojson)",
+    // single filters: the isolated run owns its input uniquely, the interleaved runs share it
+    "del(.a)",
+    "delpaths([[\"b\"]])",
+    ".c |= empty",
+    ".a = 7",
+    "to_entries",
+    "(to_entries | map(.key))?, (with_entries(.value |= tostring) | tojson)?, keys?, (.b |= empty)?",
+    "\"aXbXc\" | test(\"x\"), test(\"x\"; \"i\"), [match(\"x\"; \"gi\").offset], sub(\"x\"; \"-\"; \"gi\"), ascii_downcase, ltrimstr(\"a\"), rtrimstr(\"c\")",
+    "(tostring | toyaml), (tojson | fromyaml), ({a: .} | totoml | fromtoml), (tostring | toxml?) , ([[.]] | @csv?)",
 ];
 
 fn compile(code: &str) -> Result<Filter, String> {
@@ -65,7 +80,38 @@ fn compile(code: &str) -> Result<Filter, String> {
 }
 
 fn inputs() -> Vec<Val> {
-    ["[1,2,3]", "[[1],2]", "\"text\"", "{\"a\":1}"].iter().map(|s| jaq_all::json::read::parse_single(s.as_bytes()).unwrap()).collect()
+    INPUT_TEXTS.iter().map(|s| jaq_all::json::read::parse_single(s.as_bytes()).unwrap()).collect()
+}
+
+thread_local! { static OWNED: std::cell::RefCell<Option<Val>> = const { std::cell::RefCell::new(None) }; }
+
+const INPUT_TEXTS: &[&str] = &["[1,2,3]", "[[1],2]", "\"text\"", "{\"a\":1}", "{\"a\":1,\"b\":[2],\"c\":{\"x\":3},\"d\":\"<b> & 'q'\",\"e\":5}"];
+
+/// (program, input) pairs
+fn task_list() -> Vec<(usize, usize)> {
+    let n = 4; // the first four inputs rotate over all programs
+    let mut t: Vec<(usize, usize)> = (0..PROGRAMS.len()).flat_map(|p| [(p, p % n), (p, (p + 1) % n)]).collect();
+    // programs whose result depends on sharing of a larger object run on it as well
+    for (p, code) in PROGRAMS.iter().enumerate() {
+        if code.contains("del(") || code.contains("delpaths") || code.contains(".a = 7") || code.contains("@html") || code.contains("to_entries") || code.contains("|=") {
+            t.push((p, 4));
+        }
+    }
+    t
+}
+
+/// `vsync alone <task>`: the observations of one task in a fresh process, on a freshly parsed
+/// (uniquely owned) input, with only that program compiled: (create, 3 pulls, drop) and (create, 2 pulls)
+fn alone_child(k: usize) -> ! {
+    let (p, i) = task_list()[k];
+    let f = compile(PROGRAMS[p]).expect("compiles");
+    let fresh = || OWNED.with(|o| *o.borrow_mut() = Some(jaq_all::json::read::parse_single(INPUT_TEXTS[i].as_bytes()).unwrap()));
+    fresh();
+    let a = run_schedule(&[&f], &[Val::Null], &vec![0; 5], 3, None).remove(0);
+    fresh();
+    let b = run_schedule(&[&f], &[Val::Null], &vec![0; 3], 2, None).remove(0);
+    println!("{}", json!([a, b]));
+    std::process::exit(0)
 }
 
 fn show(r: &Option<Result<Val, String>>) -> String {
@@ -104,7 +150,9 @@ fn run_schedule(filters: &[&Filter], ins: &[Val], order: &[usize], pulls: usize,
         match stage[i] {
             0 => {
                 let ctx = Ctx::new(&datas[i], Vars::new([Val::from(41isize)]));
-                iters[i] = Some(Box::new(filters[i].id.run((ctx, ins[i].clone()))));
+                // an isolated run hands over its input (uniquely owned); otherwise the input is a clone of a shared value
+                let v = OWNED.with(|o| o.borrow_mut().take()).unwrap_or_else(|| ins[i].clone());
+                iters[i] = Some(Box::new(filters[i].id.run((ctx, v))));
             }
             s if s <= pulls => {
                 let r = iters[i].as_mut().and_then(|it| it.next()).map(|r| r.map_err(|e| match e.get_err() {
@@ -147,6 +195,9 @@ fn interleavings(t: usize, steps: usize) -> Vec<Vec<usize>> {
 }
 
 fn main() {
+    if std::env::args().nth(1).as_deref() == Some("alone") {
+        alone_child(std::env::args().nth(2).and_then(|s| s.parse().ok()).expect("task index"));
+    }
     let tier = match std::env::args().nth(1).as_deref() {
         Some("thorough") => Tier::Thorough,
         _ => Tier::Quick,
@@ -164,11 +215,33 @@ fn main() {
         .collect();
     let ins = inputs();
     // tasks: every program on two inputs
-    let tasks: Vec<(usize, usize)> = (0..PROGRAMS.len()).flat_map(|p| [(p, p % ins.len()), (p, (p + 1) % ins.len())]).collect();
+    let tasks: Vec<(usize, usize)> = task_list();
     let pulls = 3;
     let steps = pulls + 2; // create, pulls, drop
     // what each task observes alone
-    let alone: Vec<Vec<String>> = tasks.iter().map(|(p, i)| run_schedule(&[&filters[*p]], &[ins[*i].clone()], &vec![0; steps], pulls, None).remove(0)).collect();
+    // the oracle: each task in a process of its own (nothing else was ever compiled or run there, and its
+    // input is freshly parsed, i.e. uniquely owned)
+    let exe = std::env::current_exe().expect("own path");
+    let iso: Vec<(Vec<String>, Vec<String>)> = (0..tasks.len())
+        .into_par_iter()
+        .map(|k| {
+            let out = std::process::Command::new(&exe).args(["alone", &k.to_string()]).output().expect("child");
+            let v: serde_json::Value = serde_json::from_slice(&out.stdout).unwrap_or_else(|e| {
+                eprintln!("machinery error: isolated run of task {k} failed: {e}; {}", String::from_utf8_lossy(&out.stderr));
+                std::process::exit(2)
+            });
+            let list = |x: &serde_json::Value| x.as_array().unwrap().iter().map(|s| s.as_str().unwrap().to_string()).collect::<Vec<_>>();
+            (list(&v[0]), list(&v[1]))
+        })
+        .collect();
+    let alone: Vec<Vec<String>> = iso.iter().map(|x| x.0.clone()).collect();
+    // the same task alone in this process (all filters compiled, input shared with other tasks) must agree with it
+    for (k, (p, i)) in tasks.iter().enumerate() {
+        let here = run_schedule(&[&filters[*p]], &[ins[*i].clone()], &vec![0; steps], pulls, None).remove(0);
+        if here != alone[k] {
+            run.violation(&format!("alone in a shared process vs isolated process: {} @ {}", PROGRAMS[*p], ins[*i]), json!({"isolated_process": alone[k], "shared_process": here}));
+        }
+    }
     // re-running alone gives the same observations (determinism of the oracle itself)
     for (k, (p, i)) in tasks.iter().enumerate() {
         let again = run_schedule(&[&filters[*p]], &[ins[*i].clone()], &vec![0; steps], pulls, None).remove(0);
@@ -206,8 +279,8 @@ fn main() {
     run.add(c);
 
     // (2) pairs with a third task that compiles and drops filters between the steps (shorter tasks: create, 1 pull, drop)
-    // compiling is three orders of magnitude dearer than a pull: the quick tier takes every 18th pair and the diagonal
-    let cpairs: Vec<(usize, usize)> = pairs.iter().enumerate().filter(|(k, p)| !run.quick() || k % 18 == 0 || p.0 == p.1).map(|(_, p)| *p).collect();
+    // compiling is three orders of magnitude dearer than a pull: the quick tier takes every 40th pair and the diagonal
+    let cpairs: Vec<(usize, usize)> = pairs.iter().enumerate().filter(|(k, p)| !run.quick() || k % 40 == 0 || p.0 == p.1).map(|(_, p)| *p).collect();
     let c = cpairs
         .par_iter()
         .map(|(a, b)| {
@@ -240,7 +313,7 @@ fn main() {
         let n = tasks.len();
         (0..n).flat_map(|a| (0..n).flat_map(move |b| (0..n).step_by(3).map(move |c| (a, b, c)))).collect()
     };
-    let alone2: Vec<Vec<String>> = tasks.iter().map(|(p, i)| run_schedule(&[&filters[*p]], &[ins[*i].clone()], &vec![0; 3], 2, None).remove(0)).collect();
+    let alone2: Vec<Vec<String>> = iso.iter().map(|x| x.1.clone()).collect();
     let c = triples
         .par_iter()
         .map(|(a, b, cc)| {
